@@ -335,19 +335,22 @@ def check_case(case, rec=None, compiled=None):
             sh[:lim] = NONE
         # what this ethos-u operator hands back: every byte of its output tensors must have been written by the stream, all by producers of one and the
         # same tensor (a weight buffer or another feature map written over part of an output is the same defect as a foreign read, seen from the host side)
-        for t in nop.outputs:
+        # the same holds for the state tensors the operator updates in place (LSTM): what the next inference will read as its initial state must be the state this
+        # stream wrote (or left alone), not another tensor that was placed on top of it after its last update
+        state = [t for t in nop.inputs if t >= 0 and art.tensors[t].get("is_variable") and art.tensors[t]["data"] is None]
+        for t in list(nop.outputs) + state:
             o = art.offset(t)
             if o is None or o < 0:
                 continue
             sl = slice(o, o + art.nbytes(t))
             wr, idn = T.writer[1][sl], T.ident[1][sl]
-            if np.any(wr == NONE):
+            if np.any(wr == NONE) and t not in state:
                 raise Violation("C03/output-undefined", "ethos-u operator %d returns tensor %s with %d byte(s) nothing wrote" % (nop.index, art.tensors[t]["name"], int((wr == NONE).sum())), case, tags_c)
             if use_labels:
                 ids = set(int(v) for v in np.unique(idn[wr > 0]))
                 if len(ids) > 1:
                     last = int(wr[np.nonzero(idn != np.bincount(idn[wr > 0]).argmax())[0][0]])
-                    raise Violation("C03/output-clobbered", "ethos-u operator %d returns tensor %s whose bytes were last written as %d different tensors, e.g. by %s" % (
+                    raise Violation("C03/output-clobbered" if t not in state else "C03/state-clobbered", "ethos-u operator %d returns tensor %s whose bytes were last written as %d different tensors, e.g. by %s" % (
                         nop.index, art.tensors[t]["name"], len(ids), infos.get(last)), case, tags_c)
     if rec is not None:
         rec.cls("walked")
